@@ -265,17 +265,19 @@ def run_case(ctx, binp, fx, pre, group, tag, kill_sample=0, rng=None):
                         binp, "op", kd, opf], capture_output=True, text=True, timeout=300, env=vlib.goenv())
         st = proj_state(binp, kd)
         c.kills.append((k, any(st == s for s in c.states)))
-    # recovery and redo for every distinct crash state
-    c.recovered, c.redone = [], []
-    for st, sn in zip(c.states, c.snaps):
-        rd = sn + "-rec"
-        shutil.copytree(sn, rd)
-        rc, out = serve(binp, rd)
-        rst = proj_state(binp, rd)
-        c.recovered.append({"rc": rc, "out": out, "state": rst})
-        obs = run_ops_on(ctx, binp, rd, group, noapi=False)
-        c.redone.append(obs)
     return c
+
+
+def recover_and_redo(ctx, binp, c, i):
+    """the real start-up on crash state i, then the operation again"""
+    sn = c.snaps[i]
+    rd = sn + "-rec%d" % i
+    shutil.copytree(sn, rd)
+    rc, out = serve(binp, rd)
+    rst = proj_state(binp, rd)
+    obs = run_ops_on(ctx, binp, rd, c.group, noapi=False)
+    shutil.rmtree(rd, ignore_errors=True)
+    return {"rc": rc, "out": out, "state": rst}, obs
 
 
 KILL_SET = "openat,renameat,renameat2,unlinkat,mkdirat,write,pwrite64,ftruncate,copy_file_range"
@@ -320,15 +322,16 @@ def monitor_case(c):
         ok = all(res_class(o, ob) == "ROk" or (o["op"] == "delete" and res_class(o, ob) == "RNotFound") for o, ob in zip(c.group, redo))
         ref_ok = all(res_class(o, ob) == "ROk" for o, ob in zip(c.group, c.ref_obs))
         selfref = any(o["op"] == "create" and o.get("from") and fold(parse_name(o["from"])) == fold(parse_name(o["name"])) for o in c.group)
+        torn = any((not m["readable"]) and base_m.get(m["path"], {"readable": True})["readable"] for m in st["manifests"])
         if ref_ok and not ok:
-            out.append(({"class": "redo-fails", "op": kinds, "self_referential": selfref},
+            out.append(({"class": "redo-fails", "op": kinds, "self_referential": selfref, "torn_manifest": torn},
                         "repeating %s after a crash at prefix %d and restart fails: %s" % (kinds, i, [(ob.get("code"), ob.get("errors"), ob.get("body", "")[-120:]) for ob in redo]), i))
         elif ref_ok:
             fm = {m["path"]: m for m in last["state"]["manifests"]}
             want = {m["path"]: m for m in c.ref_state["manifests"]}
             if fm != want:
                 diff = sorted(set(fm) ^ set(want)) or [p for p in fm if fm[p] != want[p]]
-                out.append(({"class": "redo-differs", "op": kinds, "self_referential": selfref},
+                out.append(({"class": "redo-differs", "op": kinds, "self_referential": selfref, "torn_manifest": torn},
                             "repeating %s after a crash at prefix %d and restart leaves other manifests than the uninterrupted run: %s" % (kinds, i, diff[:3]), i))
             else:
                 fb = {b["name"]: b for b in last["state"]["blobs"]}
@@ -412,7 +415,7 @@ def gen_case(rng, fx, klass):
                 op[kk] = rng.choice(pool)
         group = [{"op": "blob", "digest": "sha256:" + sha(b), "data": b.hex(), "_fx": k}, op]
     else:
-        group = [c04.gen_pull(rng, fx, c04.rnd_name(rng, used, 0.5))]
+        group = [c04.gen_pull(rng, fx, c04.rnd_name(rng, used, 0.5), small=True)]
     return pre, group
 
 
@@ -454,6 +457,26 @@ def run(ctx):
             return ("error", traceback.format_exc(), k, pre, group)
     with concurrent.futures.ThreadPoolExecutor(12) as ex:
         results = list(ex.map(work, enumerate(cases)))
+        jobs = [(c, i) for c in results if not isinstance(c, tuple) for i in range(len(c.states))]
+
+        def work2(a):
+            c, i = a
+            try:
+                return recover_and_redo(ctx, binp, c, i)
+            except Exception:
+                import traceback
+                return traceback.format_exc()
+        out2 = list(ex.map(work2, jobs))
+    for c in results:
+        if not isinstance(c, tuple):
+            c.recovered, c.redone, c.err = [], [], None
+    for (c, i), r in zip(jobs, out2):
+        if isinstance(r, str):
+            c.err = r
+        else:
+            c.recovered.append(r[0])
+            c.redone.append(r[1])
+    results = [c if isinstance(c, tuple) or not c.err else ("error", c.err, None, c.pre, c.group) for c in results]
     items, meta = [], []
     reported = set()
     for (k, pre, group), c in zip(cases, results):
@@ -505,6 +528,11 @@ def replay(ctx, path):
         return
     fx = c04.Fixtures(ctx, binp)
     c = run_case(ctx, binp, fx, ops["pre"], ops["group"], "replay")
+    c.recovered, c.redone = [], []
+    for i in range(len(c.states)):
+        a, b = recover_and_redo(ctx, binp, c, i)
+        c.recovered.append(a)
+        c.redone.append(b)
     for (sig, what, i) in monitor_case(c):
         ctx.violation(sig, what, {"ops": ops, "crash_prefix": i})
     ctx.note_case(ops, True, "replay")
